@@ -1671,7 +1671,9 @@ def inverse_consistency_loss(
         error = error[(slice(0, error.shape[0]),) + subgrid + (slice(0, grid.ndim),)]
     # Scale differences by respective error units
     if units in ("voxel", "world"):
-        error = denormalize_flow(error, size=grid.size(), channels_last=True)
+        error = denormalize_flow(
+            error, size=grid.size(), align_corners=grid.align_corners(), channels_last=True
+        )
         if units == "world":
             error *= grid.spacing().to(error)
     # Calculate error norm
